@@ -30,7 +30,7 @@ import (
 	"verif/internal/model"
 )
 
-const rule = "cases: constructor arguments derived from generated specs - NewRouterInfo (Ed25519 identity, 0..8 addresses built by NewRouterAddress with arbitrary option maps incl. empty values and one-character keys, arbitrary options), NewLeaseSet (destination signing types DSA incl. NULL certificate, P-256, Ed25519, RedDSA; 0..16 leases), NewLeaseSet2 (every flag combination of bits 1-2, 1..16 keys, 1..16 leases, options, offline block created by CreateOfflineSignature with transient types 0,1,7,11), NewEncryptedLeaseSet and NewEncryptedLeaseSetFromDestination (all four accepted key representations, with and without offline block), CreateOfflineSignature (destination types 7, 11). Oracle: constructor succeeded with the private key matching the identity => Verify succeeds; Read*(Bytes()) succeeds with an empty remainder and the parsed value verifies; the independent verifier of C05 (stdlib crypto over the raw bytes, specification prefix) accepts the bytes. Non-trivial: >= 1 option, address, lease beyond the first, or offline block; distinct by output bytes minus signature."
+const rule = "cases: constructor arguments derived from generated specs - NewRouterInfo (Ed25519 identity, 0..8 addresses built by NewRouterAddress with arbitrary option maps incl. empty values and one-character keys, arbitrary options), NewLeaseSet (destination signing types DSA incl. NULL certificate, P-256, Ed25519, RedDSA; 0..16 leases), NewLeaseSet2 (every flag combination of bits 1-2, 1..16 keys, 1..16 leases, options, offline block created by CreateOfflineSignature (Ed25519 / RedDSA destinations) or by NewOfflineSignature around the destination's own DSA signature (DSA destinations, KEY and NULL certificate), transient types 0,1,7,11), NewEncryptedLeaseSet and NewEncryptedLeaseSetFromDestination (all four accepted key representations, with and without offline block), CreateOfflineSignature (destination types 7, 11). Oracle: constructor succeeded with the private key matching the identity => Verify succeeds; Read*(Bytes()) succeeds with an empty remainder and the parsed value verifies; the independent verifier of C05 (stdlib crypto over the raw bytes, specification prefix) accepts the bytes. Non-trivial: >= 1 option, address, lease beyond the first, or offline block; distinct by output bytes minus signature."
 
 // touch calls every argument-free exported method of v (and of the library
 // values those return) once; a read-only accessor must not change what verifies.
@@ -229,6 +229,17 @@ func offlineFor(o *gen.OfflineSpec, idType int, idKey *model.SignKey) (*offline_
 	exp := o.Expires
 	if exp == 0 {
 		exp = 1
+	}
+	if idType != 7 && idType != 11 {
+		// CreateOfflineSignature signs for Ed25519-family destinations only; for the other
+		// types the block is assembled by NewOfflineSignature around a signature made with
+		// the destination's own key over expires || type || transient key
+		mo := model.Offline{Expires: exp, TType: o.TType, TKey: tk.Pub}
+		off, err := offline_signature.NewOfflineSignature(exp, uint16(o.TType), tk.Pub, idKey.Sign(mo.SignedPart()), uint16(idType))
+		if err != nil {
+			return nil, nil, fmt.Errorf("NewOfflineSignature(transient %d, destination %d): %v", o.TType, idType, err)
+		}
+		return &off, tk, nil
 	}
 	off, err := offline_signature.CreateOfflineSignature(exp, uint16(o.TType), tk.Pub, edPriv(idKey), uint16(idType))
 	if err != nil {
@@ -509,9 +520,8 @@ func genCase(t *rapid.T) Case {
 		s := gen.LS2G(t, "ls2", []int{7, 7, 11, 0, 1})
 		s.Keys = gen.KeysG(t, "skeys", true)
 		if s.Header.Offline != nil {
-			if s.Header.Dest.SigType != 7 && s.Header.Dest.SigType != 11 {
-				s.Header.Dest.SigType = 7 // CreateOfflineSignature signs with Ed25519-family destinations only
-				s.Header.Dest.NullCert = false
+			if s.Header.Dest.SigType == 1 {
+				s.Header.Dest.SigType = 0 // P-256 destinations: known finding F-ECDSA-VERIFY whatever the block
 			}
 			s.Header.Offline.TType = rapid.SampledFrom([]int{7, 11, 0, 1}).Draw(t, "ttype")
 		}
